@@ -91,9 +91,34 @@ def run(ctx):
                     if not any(sa <= a and z <= sz for sa, sz in smap) and not any(xa <= a and z <= xz + 1 for xa, xz, _, _ in _merge(ext)):
                         ctx.violation(f'case-{i}-write-in-hole.json', dict(case=c.__dict__, call=e, src_map=smap[:50]), 'C11: a write landed outside every reported data range')
                         break
+        # ---- several sparse files in ONE run; extent mapping refused for one of them (a source on a file system without
+        # FIEMAP next to sources on ext4): whether a file's holes survive is decided per file, never for the rest of the run
+        for i in range(6 if ctx.quick else 40):
+            c = br.Case()
+            c.files = [(f's{j}', [('hole', 2 * MB), ('seg', 2 * K, 50 + j), ('hole', 3 * MB), ('seg', K, 70 + j), ('hole', MB)]) for j in range(3)]
+            c.no_progress = False; c.bsize = rng.choice([65536, MB]); c.driver = ['parblock', 'parfile'][i % 2]; c.workers = rng.choice([1, 4]); c.reflink = 'auto'
+            c.prior = 'absent'; c.extra = []; c.tag = 'multi-fiemap'
+            nth = rng.choice([1, 1, 2])
+            c.plan = [f'fail ioctl fiemap {nth} {scen.ERRNO["EOPNOTSUPP"]}']
+            pairs = br.setup_case(root, c)
+            r = scen.run_xcp(root, br.argv_of(c), plan=c.plan, timeout=120)
+            hit = [e.get('fdpath') or '' for e in r.trace if e.get('inj')]
+            ctx.count(f'multi_fiemap.{c.driver}.' + ('fired' if hit else 'not_fired')); ctx.count(f'exit.{r.cls}')
+            ctx.case(('multi-fiemap', i, c.driver, c.workers, tuple(c.plan)), bool(hit))
+            if r.cls != '0':
+                ctx.violation(f'multi-{i}-exit.json', dict(case=c.__dict__, stderr=r.stderr[-500:]), 'copy of three sparse files with FIEMAP refused once failed', no_input=True)
+                continue
+            for src, dst, data in pairs:
+                if any(h == src or h == dst for h in hit):
+                    continue            # this file's own mapping was refused: copying it whole is the documented fall-back
+                ss, ds = os.stat(src), os.stat(dst)
+                if ds.st_blocks > ss.st_blocks + 8 * 3 + 16:
+                    ctx.violation(f'multi-{i}.json', dict(case=c.__dict__, refused_for=hit, file=dst[len(root):], src_blocks=ss.st_blocks, dst_blocks=ds.st_blocks),
+                                  f'C11: {dst[len(root):]} allocates {ds.st_blocks * 512} bytes (source {ss.st_blocks * 512}) after extent mapping was refused for ANOTHER file ({[h[len(root):] for h in hit]}); {c.driver}')
+                    break
         shutil.rmtree(root + '/S', ignore_errors=True); shutil.rmtree(root + '/D', ignore_errors=True)
     ctx.cov['rule'] = ('layouts {leading, trailing, interleaved, only-hole, 1-byte data, >32 extents} with holes 1..64 MiB (200 MiB thorough) x block sizes {4096, 12289, 100000, 1MB, usize::MAX} '
-                       'x driver x workers {1,2,4,16} x fresh / fully allocated existing destination. distinct = distinct (layout, block, driver, workers, prior)')
+                       'x driver x workers {1,2,4,16} x fresh / fully allocated existing destination; three sparse files in one run with FIEMAP refused for one of them. distinct = distinct (layout, block, driver, workers, prior)')
     ctx.assumptions += ['ext4: blocks are allocated only where written; ftruncate/O_TRUNC release previous allocation (measured on every run, not proved)']
 
 
